@@ -24,7 +24,7 @@ def cases(tier, seed):
     pick = [f for f in fx if 'padding/' not in f] + rng.sample([f for f in fx if 'padding/' in f], 3 if tier == 'quick' else 16)
     for rel in pick:
         out.append({'id': 'fix:' + rel, 'file': {'kind': 'fixture', 'rel': rel}, 'n': 60 if tier == 'quick' else 300, 'cost': 2})
-    reps = 1 if tier == 'quick' else 8
+    reps = 3 if tier == 'quick' else 10
     for rep in range(reps):
         for fam, lays in files.LAYOUTS_3D.items():
             for rate, bs in (lays if tier != 'quick' else rng.sample(lays, min(3, len(lays)))):
